@@ -75,9 +75,6 @@ func c08FindRoles(c *Ctx, rule string) *c08Roles {
 		}
 	}
 	for _, f := range c09FuncsOfPkg(c.P, c08Pkg) {
-		if f.Signature.Recv() == nil {
-			continue
-		}
 		storesManifests, usesIndexPath := false, false
 		AllInstrs(f, func(in ssa.Instruction) {
 			switch u := in.(type) {
@@ -95,11 +92,45 @@ func c08FindRoles(c *Ctx, rule string) *c08Roles {
 				}
 			}
 		})
+		if !usesIndexPath {
+			// the path is a parameter (writeJSONFile(path, …)): judged by what the call sites pass
+			for _, call := range Calls(f, func(n string) bool { return c08FileWriters[n] }) {
+				for _, a := range call.Common().Args {
+					if pf, _ := c09ParamOf(a); pf != f {
+						continue
+					}
+					if os, ok := c09Origins(c.P, a, 2, nil); ok {
+						for _, o := range os {
+							if c08DerivesFromField(o, r.store, "indexPath") {
+								usesIndexPath = true
+							}
+						}
+					}
+				}
+			}
+		}
 		if usesIndexPath {
 			r.indexWriter[f] = true
 		}
-		if storesManifests && reachesCall(f, 2, func(n string, _ ssa.CallInstruction) bool { return c08FileWriters[n] }) {
+		if storesManifests && f.Signature.Recv() != nil && reachesCall(f, 3, func(n string, _ ssa.CallInstruction) bool { return c08FileWriters[n] }) {
 			r.savers[f] = true
+		}
+	}
+	// a function that hands the index path to an index writer is one too (writeIndexFile -> writeJSONFile)
+	for round := 0; round < 2; round++ {
+		for _, f := range c09FuncsOfPkg(c.P, c08Pkg) {
+			if r.indexWriter[f] {
+				continue
+			}
+			for _, call := range Calls(f, func(string) bool { return true }) {
+				if g := StaticCallee(call); g != nil && r.indexWriter[g] {
+					for _, a := range call.Common().Args {
+						if c08DerivesFromField(a, r.store, "indexPath") {
+							r.indexWriter[f] = true
+						}
+					}
+				}
+			}
 		}
 	}
 	if len(r.savers) == 0 {
